@@ -18,6 +18,11 @@ ViewsV(g, v, lin) ==       \* lin = FALSE for GCP boxes: the class offers no lab
   ELSE IF AxisAligned(g.A) /\ v.ys # <<2 * g.A[6] + g.A[5], 2 * g.A[6] + g.A[5] + 2 * g.A[5] * (g.h - 1), g.h>> THEN "y_labels_are_not_pixel_centres"
   ELSE IF AxisAligned(g.A) /\ v.res # <<g.A[1], g.A[5]>> THEN "resolution_is_not_the_pixel_size"
   ELSE IF ~AxisAligned(g.A) /\ v.xs # <<>> THEN "labels_offered_for_a_rotated_box"
+  \* rotated / sheared box: resolution = (length of a pixel step along the columns, signed area of a pixel over it) - the rotation-shear-scale
+  \* decomposition; checked where the numbers stay on the lattice and inside TLC's integers
+  ELSE IF ~AxisAligned(g.A) /\ v.res # <<>> /\ (\A i \in {1, 2, 4, 5} : Abs(g.A[i]) < 30000) /\ Abs(v.res[1]) < 30000 /\ Abs(v.res[2]) < 30000
+          /\ ~(v.res[1] > 0 /\ v.res[1] * v.res[1] = g.A[1] * g.A[1] + g.A[4] * g.A[4] /\ v.res[1] * v.res[2] = g.A[1] * g.A[5] - g.A[2] * g.A[4])
+       THEN "resolution_of_a_rotated_box_is_not_its_pixel_size"
   ELSE "ok"
 Verdict(e) ==
   LET eff == Eff(e.pre, e.op) IN
